@@ -156,8 +156,12 @@ class String(Object, str):
 
     def __new__(cls, s=None, brackets=None):
         value = super().__new__(cls, s)
-        if brackets is not None and f"]{brackets}]" in value:
-            raise ValueError(f"Syntactically illegal bracket string: {s!r}")
+        if brackets is not None:
+            closer = f"]{brackets}]"
+            # The content can't contain the closing delimiter, nor end
+            # with something that reads as its start, as in `#[[x]]]`.
+            if (value + closer).find(closer) != len(value):
+                raise ValueError(f"Syntactically illegal bracket string: {s!r}")
         value.brackets = brackets
         return value
 
